@@ -904,3 +904,12 @@ pub fn prop() -> Prop {
         extra: None,
     }
 }
+
+/// Re-used by C06 (a panic inside any operation is reported by `o_case`).
+pub fn gcase_for_c06() -> BoxedStrategy<QCase> {
+    gcase()
+}
+
+pub fn o_case_pub(c: &QCase, st: &mut Stats) -> Result<(), String> {
+    o_case(c, st).map(|()| st.nontrivial(&(&c.init, &c.ops, "c06"), || json!({ "ops": c.ops.len() })))
+}
